@@ -60,6 +60,7 @@ type Client struct {
 	polling     bool
 	posting     bool
 	lateN       int
+	pollAlive   bool
 	srvOut      []*half             // server->client halves of this client's WebSocket connections (back-pressure)
 	deadStreams map[streamConn]bool // candidate connections whose stream has ended
 	upgrading   bool
@@ -521,6 +522,8 @@ func boolN(b bool) int64 {
 
 // pollLoop is engine.io-client's polling read side.
 func (c *Client) pollLoop() {
+	c.pollAlive = true
+	defer func() { c.pollAlive = false }()
 	for !c.closed && !c.stopped && c.transport == "polling" {
 		if c.pausing || c.paused {
 			c.paused = true
@@ -834,8 +837,8 @@ func (c *Client) playCandidate(s streamConn, script []CandOp) {
 					return
 				}
 				if c.deadStreams[s] {
-					c.pausing, c.paused = false, false
 					c.rec("c-cand-end", "candidate lost while pausing", 0)
+					c.resumePolling()
 					return
 				}
 				c.paused = true
@@ -855,7 +858,7 @@ func (c *Client) playCandidate(s streamConn, script []CandOp) {
 			}
 			if gotPong {
 				// the candidate was gone when the client wanted to switch: it stays on polling
-				c.pausing, c.paused = false, false
+				c.resumePolling()
 			}
 			c.rec("c-cand-upgrade-unprobed", "", 0)
 		case "disconnect":
@@ -1169,3 +1172,11 @@ func (s *wsClient) reset() {
 }
 
 var _ io.Reader = (*bufio.Reader)(nil)
+
+// resumePolling: an upgrade that did not happen leaves the client on its polling transport - it polls again.
+func (c *Client) resumePolling() {
+	c.pausing, c.paused = false, false
+	if !c.pollAlive && !c.closed && !c.stopped && c.transport == "polling" {
+		c.spawn("poll", c.pollLoop)
+	}
+}
